@@ -63,6 +63,12 @@ type hProfile struct {
 	idPool   []interface{}
 	ttl      bool
 	tinyVals []interface{} // when set, filters/updates prefer these values
+	// storeFail: percentage of write steps that run with a Store call that
+	// fails (the whole call must then fail and change nothing)
+	storeFail int
+	// ttlBoost: percentage of index models that are a plain TTL index on a
+	// field that holds dates
+	ttlBoost int
 }
 
 var allNS = []string{"d1.c1", "d1.c1", "d1.c1", "d1.c2", "d2.c1"}
@@ -229,6 +235,11 @@ func (p *hProfile) genUpdate(t *rapid.T, view *hView, ns string) (bson.D, bson.A
 }
 
 func (p *hProfile) genIndexModel(t *rapid.T, view *hView, ns string) bson.D {
+	if p.ttlBoost > 0 && rapid.IntRange(0, 999).Draw(t, "ttlplain")%100 >= 100-p.ttlBoost {
+		// a plain TTL index on one of the fields that hold dates
+		k := rapid.SampledFrom([]string{"a", "b", "c"}).Draw(t, "ttlkey")
+		return bson.D{{Key: "keys", Value: bson.D{{Key: k, Value: int32(1)}}}, {Key: "ttl", Value: rapid.SampledFrom([]interface{}{int32(0), int32(1), int32(3600)}).Draw(t, "ttlv")}}
+	}
 	nk := rapid.SampledFrom([]int{1, 1, 1, 2}).Draw(t, "nkeys")
 	keys := bson.D{}
 	used := map[string]bool{}
@@ -439,11 +450,20 @@ func (p *hProfile) genStep(t *rapid.T, view *hView) bson.D {
 	case "dropIndexKey":
 		keys := append([]bson.D{{{Key: "_id", Value: int32(1)}}, {{Key: "a", Value: int32(1)}}}, view.idxKeys[ns]...)
 		add("keys", rapid.SampledFrom(keys).Draw(t, "dkeys"))
-	case "dropIndexes", "listIndexes", "createColl", "dropColl":
+	case "txnAborted":
+		add("what", rapid.SampledFrom([]string{"dropColl", "dropDB", "create", "deleteAll", "expire"}).Draw(t, "awhat"))
+	case "dropIndexes", "listIndexes", "createColl", "dropColl", "expire":
 	case "dropDB", "listColls":
 		db, _ := splitNS(ns)
 		add("db", db)
 	case "listDBs":
+	}
+	if p.storeFail > 0 && isWriteOp(op) && op != "txnAborted" {
+		// rapid favours the ends of an integer range: take the percentage
+		// from the middle of each hundred
+		if v := rapid.IntRange(0, 999).Draw(t, "failstore") % 100; v >= 50 && v < 50+p.storeFail {
+			add("failStore", true)
+		}
 	}
 	return step
 }
